@@ -85,6 +85,20 @@ def make_scenario(assign, rng, share_exe=None, n_val=None, deco=None, retries=No
     for r in runs:
         if r['exe'] in eb:
             r['ebuild'] = eb[r['exe']]
+    # executors in different directories whose build commands have the same text: not the same build
+    # (a build is its script *and* its location). Give intact executors a working build of their own, too.
+    if any(r.get('file') is not None for r in runs) and rng.random() < 0.6:
+        for r in runs:
+            if r.get('ebuild') is None and r['beh'] != 'build' and rng.random() < 0.6:
+                r['ebuild'] = r['exe']
+        eb = {}
+        for r in runs:
+            if r.get('ebuild') is not None:
+                eb[r['exe']] = r['ebuild']
+        for r in runs:
+            if r['exe'] in eb:
+                r['ebuild'] = eb[r['exe']]
+                r['ebuild_text'] = 0
     scn = {'runs': runs}
     if deco:
         scn['deco'] = deco
@@ -183,6 +197,14 @@ def run_scenario(ck, scn, scripts, sched, choices, faulty, tag, stop_at=None, wi
         ck.count('same-file-name-in-different-directories')
         if any(r['beh'] == 'missing' and len(files.get(r.get('file'), ())) > 1 for r in scn['runs']):
             ck.count('missing-binary-shares-file-name-with-intact-executor')
+    texts = {}
+    for r in scn['runs']:
+        if r.get('ebuild_text') is not None:
+            texts.setdefault(r['ebuild_text'], set()).add(r['ebuild'])
+    if any(len(v) > 1 for v in texts.values()):
+        ck.count('same-build-text-in-different-directories')
+        if fb:
+            ck.count('same-build-text-one-failing')
     if stop_at is not None and any(r.get('maxtime') is not None for r in scn['runs']):
         ck.count('abort-with-max_invocation_time')
     for r, sc in zip(scn['runs'], scripts):
